@@ -20,6 +20,8 @@ CONSTANT IBug   \* "none" | design mutants, the first four being the code before
                 \*   "hdr_row"    header rows captured from inline p instead of min_il + p
                 \*   "swap_steps" irregular: inline step written to the crossline-interval word
                 \*   "step_count" irregular: step = (max - min) div count instead of count - 1
+                \*   "trust_segyio" segyio's inferred cube is not checked against the trace numbers (the code before repair 8fc901d)
+                \*   "ends_only"  only the first and last trace of every inferred line are checked
 
 SetMin(S) == CHOOSE a \in S : \A b \in S : a <= b
 SetMax(S) == CHOOSE a \in S : \A b \in S : a >= b
@@ -31,12 +33,21 @@ Xls(src) == {src[t][2] : t \in 1..Len(src)}
 (* the traces fill the il x xl rectangle of the numbers present, sorted.   *)
 (***************************************************************************)
 FullGrid(src) == Len(src) = Cardinality(Ils(src)) * Cardinality(Xls(src))
+\* segyio (strict = False) infers a cube from the number of leading traces that share the first inline number and the trace
+\* count alone; seismicfile.py then checks the numbers of EVERY trace against that cube and reopens without geometry if not
+LeadRun(src) == Cardinality({t \in 1..Len(src) : \A u \in 1..t : src[u][1] = src[1][1]})
+SegyioInfers(src) == Len(src) % LeadRun(src) = 0 /\ ~(Ils(src) = {0} /\ Xls(src) = {0})
+CubeConsistent(src) ==
+    LET n1 == LeadRun(src)
+        tocheck == IF IBug = "ends_only" THEN {t \in 1..Len(src) : (t - 1) % n1 \in {0, n1 - 1}} ELSE 1..Len(src)
+    IN  \A t \in tocheck : src[t] = <<src[((t - 1) \div n1) * n1 + 1][1], src[((t - 1) % n1) + 1][2]>>
+Structured(src) == SegyioInfers(src) /\ (IBug = "trust_segyio" \/ CubeConsistent(src))
 Detect(src) ==
-    IF ~FullGrid(src) \/ (Ils(src) = {0} /\ Xls(src) = {0})
+    IF ~Structured(src)
     THEN IF src[1] = <<0, 0>> /\ src[Len(src)] = <<0, 0>> THEN [kind |-> "2d", n |-> Len(src)]
          ELSE [kind |-> "irregular"]
-    ELSE IF Cardinality(Ils(src)) = 1 THEN [kind |-> "2d", n |-> Cardinality(Xls(src))]
-    ELSE IF Cardinality(Xls(src)) = 1 THEN [kind |-> "2d", n |-> Cardinality(Ils(src))]
+    ELSE IF Len(src) \div LeadRun(src) = 1 THEN [kind |-> "2d", n |-> LeadRun(src)]
+    ELSE IF LeadRun(src) = 1 THEN [kind |-> "2d", n |-> Len(src)]
     ELSE [kind |-> "regular"]
 
 (***************************************************************************)
@@ -79,7 +90,8 @@ TraceOfOrdinal(src, i) ==
 IrregularOK(src, tr) ==
     LET H == IrregularHeader(src)
         g == Infer(src)
-    IN  /\ AxisOf(g.il) = tr.il /\ AxisOf(g.xl) = tr.xl
+    IN  /\ Detect(src).kind = "irregular"           \* not mistaken for a (smaller) regular cube
+        /\ AxisOf(g.il) = tr.il /\ AxisOf(g.xl) = tr.xl
         /\ H.n_il = Len(tr.il) /\ H.n_xl = Len(tr.xl) /\ H.min_il = tr.il[1] /\ H.min_xl = tr.xl[1]
         /\ H.il_step = tr.il[2] - tr.il[1] /\ H.xl_step = tr.xl[2] - tr.xl[1]
         /\ H.tracecount = Len(src) /\ H.tracecount # H.n_il * H.n_xl            \* structured = FALSE
